@@ -244,7 +244,7 @@ def run(ctx):
     else:
         plan = [("core_md1", "core", "md", 1, False, 5), ("core_mmd1", "core", "mmd", 1, False, 4), ("core_md2", "core", "md", 2, False, 4),
                 ("core_mm", "core", "mm", 1, False, 4),
-                ("layer_mmd", "layer", "mmd", 1, False, 4), ("layer_md2", "layer", "md", 2, False, 4), ("batch_md1", "batch", "md", 1, False, 4),
+                ("layer_mmd", "layer", "mmd", 1, False, 3), ("layer_md2", "layer", "md", 2, False, 4), ("batch_md1", "batch", "md", 1, False, 4),
                 ("batch_mmd2", "batch", "mmd", 2, False, 3),
                 ("valid_md1", "valid", "md", 1, True, 5), ("valid_off", "valid", "md", 1, False, 4), ("valid_mmd", "valid", "mmd", 1, True, 4),
                 ("fault_md1", "fault", "md", 1, True, 4), ("fault_mmd", "fault", "mmd", 2, True, 3), ("ttl_md1", "ttl", "md", 1, False, 5)]
